@@ -68,14 +68,17 @@ def update (db : DB) (j : Job) (ts : Nat) : DB :=
 /-- the effect of `Cron.set` on the flags (the due time itself is an input) -/
 def setFlags (j : Job) : Job := if j.evict then j else if j.isDur then { j with once := true } else j
 
+/-- `Cron.Add` forgets the `TId` its caller put into the job (`j.TId = ""`; `AddHandler` decodes the request body into the job) -/
+def clearTid (j : Job) : Job := if addClearsTid then { j with tid := none } else j
+
 /-- `Cron.Add` when nothing runs between its exists-check (a View transaction) and its Update transaction; Bool = no `Exists` error -/
 def add (db : DB) (j : Job) (ts : Nat) : DB × Bool :=
   match get j.aid db.jobs with
   | some _ => (db, false)
-  | none => (update db (setFlags j) ts, true)
+  | none => (update db (setFlags (clearTid j)) ts, true)
 
 /-- the second transaction of `Cron.Add` alone (its exists-check was done earlier, in another transaction) -/
-def addCommit (db : DB) (j : Job) (ts : Nat) : DB := update db (setFlags j) ts
+def addCommit (db : DB) (j : Job) (ts : Nat) : DB := update db (setFlags (clearTid j)) ts
 
 /-- the transaction built by `Cron.delete` -/
 def delete (db : DB) (aid : Nat) : DB :=
@@ -133,7 +136,45 @@ def step (db : DB) : Op → DB
 
 def run (db : DB) (ops : List Op) : DB := ops.foldl step db
 
-/-- what a caller of `Add` may pass: a fresh job (no `TId`, not marked for eviction) -/
-def Job.fresh (j : Job) : Bool := j.tid.isNone && !j.evict
+/-! ## recurring jobs: occurrences and jitter (`Cron.set` / `Cron.Jitter`)
+
+The bucket model above takes the new due time of a job as an input. For a job with a cron expression `Cron.set` computes it as
+`schedule.Next(time.Now().UTC()).Add(c.Jitter())`; the life of one such job is modelled here with the occurrence as a ghost
+field, so that "once per occurrence" and "not before the occurrence" can be stated. `p` is the period of the stand-in schedule
+(occurrences = multiples of `p`), `max` is `Cron.MaxJitter`, `u` (`< max`) is the value `rand.Float64()*max` of one call. -/
+
+/-- stand-in for `Expression.Next(now)`: the first multiple of `p` strictly after `now` -/
+def nextOcc (p now : Nat) : Nat := (now / p + 1) * p
+
+/-- `Cron.set` for a cron expression: next occurrence plus `Cron.Jitter()` (= `u - jitterSub max`; times before 0 do not exist) -/
+def setCron (p max now u : Nat) : Nat := nextOcc p now + u - jitterSub max
+
+structure RState where
+  /-- ghost: the occurrence the job's key in the time bucket was computed from -/
+  occ : Nat
+  /-- the timestamp of that key -/
+  key : Nat
+  clock : Nat
+  /-- ghost log, newest first: (occurrence served, clock reading of the due test) of every run of the job -/
+  runs : List (Nat × Nat) := []
+  deriving Repr, Inhabited
+
+inductive ROp where
+  | advance (d : Nat)
+  /-- one `work()` transaction: the due test reads the clock, `set` reads it again `d` later and draws `u` -/
+  | poll (d u : Nat)
+  deriving Repr, Inhabited
+
+/-- the state right after `Add` at time `now` -/
+def rinit (p max now u : Nat) : RState := { occ := nextOcc p now, key := setCron p max now u, clock := now }
+
+def rstep (p max : Nat) (s : RState) : ROp → RState
+  | .advance d => { s with clock := s.clock + d }
+  | .poll d u =>
+    if isDue ⟨s.key, 0⟩ s.clock then
+      { occ := nextOcc p (s.clock + d), key := setCron p max (s.clock + d) u, clock := s.clock + d, runs := (s.occ, s.clock) :: s.runs }
+    else s
+
+def rrun (p max : Nat) (s : RState) (ops : List ROp) : RState := ops.foldl (rstep p max) s
 
 end Crolt
